@@ -69,6 +69,8 @@ _OOO_NAMESPACES = {
 }
 _NUMBER_COLUMNS_REPEATED = "{" + _OOO_NAMESPACES["table"] + "}number-columns-repeated"
 _TABLE_ROW = "{" + _OOO_NAMESPACES["table"] + "}table-row"
+#: Elements that are cells of a row; covered cells are the positions hidden by a merged cell.
+_TABLE_CELLS = tuple("{" + _OOO_NAMESPACES["table"] + "}" + name for name in ("table-cell", "covered-table-cell"))
 #: Elements that can group the rows of a table, for example rows to repeat on each printed page.
 _TABLE_ROW_CONTAINERS = tuple(
     "{" + _OOO_NAMESPACES["table"] + "}" + name for name in ("table-header-rows", "table-rows", "table-row-group")
@@ -322,7 +324,7 @@ def ods_rows(source_ods_path, sheet=1):
         location.advance_sheet()
     for table_row in _ods_table_rows(table_element):
         row = []
-        for table_cell in _findall(table_row, "table:table-cell", namespaces=_OOO_NAMESPACES):
+        for table_cell in (row_child for row_child in table_row if row_child.tag in _TABLE_CELLS):
             repeated_text = table_cell.attrib.get(_NUMBER_COLUMNS_REPEATED, "1")
             try:
                 repeated_count = int(repeated_text)
